@@ -1,9 +1,19 @@
-(* C02 driver.  Case lines (see harness/cmd/storageharness/c02.go):
-     D <n> <ncols> { <id> <cell>*ncols }*n      dataset, rows in ascending id order; becomes current
+(* C02 driver.  Case lines (see harness/cmd/storageharness/c02.go, c02child.go):
+     D <n> <ncols> { <id> <cell>*ncols }*n      dataset: the rows of the ROOT store in ascending id order, cells as
+        the stores of the chain see them; becomes current; resets layout (every row level 0) and view (root)
         cell: N | B0 | B1 | I<dec> | F<16 hex> | S<hex|-> | T<sec>:<nsec>
+     L <levels|e> <owners>                      layout of the current dataset: one digit per row = the deepest
+        store of the chain root(0) / child(1) / grandchild(2) whose bucket the row has (owners: per column, unused here)
+     V <tier> <ext>                             the store queried from here on: tier 0 root, 1 child, 2 grandchild;
+        ext 1 = extended.  A row is present in the store iff its level >= tier
      Q|X <bits> <nsort> { <col|id> <b|i|f|s|t> <a|d> }* <skip|-> <limit|-|none>
         bits: one 0/1 per row of the current dataset (does the filter match)
+     R <bits> <nsort> {sort}* <skip> <limit> <nops> {op}*     one compiled query, executed and mutated by the caller
+        op: q (QueryIdsC) | w (QueryWithCursorC) | i (IterateIds) | o (objectz QueryEntitiesC) | x (unrelated activity)
+            | S <z> (SetSkip) | L <z> (SetLimit) | A <nsort> {sort}* (AdoptSortFields) | P <bits> (SetPredicate)
    Output for Q/X:  query=<count>:<ids> spec=<count>:<ids> iter=<ids> iterspec=<ids> legacy=<count>:<ids> legiter=<ids> sorting=<count>:<ids> nan=<0|1>
+   Output for R:    n=<runs> { a<k>=<answer> s<k>=<specified answer> e<k>=<skip>/<limit> }    k-th execution;
+        answer = <count>:<ids>, for the iteration i:<ids>; e<k> = effective paging of the query object after it
    ids: comma separated hex, - when empty *)
 let parse_cell (t : string) : cell =
   let rest () = String.sub t 1 (String.length t - 1) in
@@ -25,12 +35,43 @@ let ktype_of = function
 let ids_str (l : n list list) : string =
   if l = [] then "-" else String.concat "," (List.map hex_of_bytes l)
 let res_str ((ids, cnt) : n list list * z) : string = dec_of_z cnt ^ ":" ^ ids_str ids
+let ans_str ((ids, cnt) : n list list * z option) : string =
+  (match cnt with Some c -> dec_of_z c | None -> "i") ^ ":" ^ ids_str ids
 
 let rec take k l = if k = 0 then ([], l) else match l with x :: r -> let (a, b) = take (k - 1) r in (x :: a, b) | [] -> failwith "short"
 
 let current : row list ref = ref []
+let levels : (n list * int) list ref = ref []      (* id -> level *)
+let view : (int * bool) ref = ref (0, false)
 
 let opt_z = function "-" -> None | "none" -> Some (z_of_int (-1)) | s -> Some (z_of_dec s)
+
+let rec sort_fields k toks acc =
+  if k = 0 then (List.rev acc, toks) else
+  match toks with
+  | col :: ty :: dir :: more ->
+      let c = if col = "id" then ColId else Col (nat_of_int (int_of_string col), ktype_of ty) in
+      sort_fields (k - 1) more ({ sf_col = c; sf_asc = (dir = "a") } :: acc)
+  | _ -> failwith "short sort"
+
+let pred_of_bits (bits : string) : row -> bool =
+  let rows = !current in
+  let matching = List.filteri (fun i _ -> bits.[i] = '1') rows |> List.map (fun r -> r.r_id) in
+  fun r -> List.mem r.r_id matching
+
+let rec parse_ops toks acc =
+  match toks with
+  | [] -> List.rev acc
+  | "q" :: more -> parse_ops more (Run EQueryIds :: acc)
+  | "w" :: more -> parse_ops more (Run ECursorQuery :: acc)
+  | "i" :: more -> parse_ops more (Run EIterate :: acc)
+  | "o" :: more -> parse_ops more (Run EObjects :: acc)
+  | "x" :: more -> parse_ops more acc
+  | "S" :: v :: more -> parse_ops more (SetSkip (z_of_dec v) :: acc)
+  | "L" :: v :: more -> parse_ops more (SetLimit (z_of_dec v) :: acc)
+  | "A" :: k :: more -> let (fs, more') = sort_fields (int_of_string k) more [] in parse_ops more' (AdoptSort fs :: acc)
+  | "P" :: bits :: more -> parse_ops more (SetPred (pred_of_bits bits) :: acc)
+  | t :: _ -> failwith ("bad op " ^ t)
 
 let () =
   iter_lines (fun line ->
@@ -45,31 +86,55 @@ let () =
               rows (k - 1) more' ({ r_id = bytes_of_hex id; r_cells = List.map parse_cell cells } :: acc)
           | [] -> failwith "short dataset" in
         current := rows n rest [];
+        levels := List.map (fun r -> (r.r_id, 0)) !current;
+        view := (0, false);
         print_endline "D"
-    | kind :: bits :: ns :: rest when kind = "Q" || kind = "X" ->
-        let ns = int_of_string ns in
-        let rec fields k toks acc =
-          if k = 0 then (List.rev acc, toks) else
-          match toks with
-          | col :: ty :: dir :: more ->
-              let c = if col = "id" then ColId else Col (nat_of_int (int_of_string col), ktype_of ty) in
-              fields (k - 1) more ({ sf_col = c; sf_asc = (dir = "a") } :: acc)
-          | _ -> failwith "short sort" in
-        let (fs, rest') = fields ns rest [] in
-        let (sk, lim) = (match rest' with [a; b] -> (opt_z a, opt_z b) | _ -> failwith "bad paging") in
-        let p = { pg_skip = sk; pg_limit = lim } in
+    | "L" :: lv :: _ ->
+        levels := List.mapi (fun i r -> (r.r_id, Char.code lv.[i] - 48)) !current;
+        print_endline "L"
+    | "V" :: tier :: ext :: _ ->
+        view := (int_of_string tier, ext = "1");
+        print_endline "V"
+    | kind :: bits :: ns :: rest when kind = "Q" || kind = "X" || kind = "R" ->
+        let (fs, rest') = sort_fields (int_of_string ns) rest [] in
+        let (tier, ext) = !view in
+        let sv = { sv_child = tier > 0; sv_extended = ext } in
+        let lv = !levels in
+        let present (r : row) = List.assoc r.r_id lv >= tier in
         let rows = !current in
-        let matching = List.filteri (fun i _ -> bits.[i] = '1') rows |> List.map (fun r -> r.r_id) in
-        let matches (r : row) = List.mem r.r_id matching in
-        let nan = List.exists (fun r -> not (row_no_nan r)) rows in
-        Printf.printf "query=%s spec=%s iter=%s iterspec=%s legacy=%s legiter=%s sorting=%s nan=%s\n"
-          (res_str (query_ids matches fs p rows))
-          (res_str (query_spec fs p matches rows))
-          (ids_str (iterate_ids matches p rows))
-          (ids_str (List.map (fun r -> r.r_id) (page p (List.filter matches rows))))
-          (res_str (query_ids_legacy matches fs p rows))
-          (ids_str (iterate_ids_legacy matches p rows))
-          (res_str (scan_sorting matches fs p rows))
-          (bool_str nan)
+        let matches = pred_of_bits bits in
+        if kind = "R" then begin
+          let (sk, lim, optoks) = (match rest' with a :: b :: _ :: ops -> (opt_z a, opt_z b, ops) | _ -> failwith "bad program") in
+          let q0 = { cq_match = matches; cq_sort = fs; cq_paging = { pg_skip = sk; pg_limit = lim } } in
+          let ops = parse_ops optoks [] in
+          let got = run_prog sv present rows q0 ops and want = spec_prog sv present rows q0 ops in
+          (* the query object after every execution: stepping with the extracted exec / mutate *)
+          let rec states q ops acc = match ops with
+            | [] -> List.rev acc
+            | Run e :: more -> let (_, q') = exec sv present rows e q in states q' more (effective_paging q' :: acc)
+            | o :: more -> states (mutate o q) more acc in
+          let effs = states q0 ops [] in
+          let b = Buffer.create 256 in
+          Buffer.add_string b (Printf.sprintf "n=%d" (List.length got));
+          List.iteri (fun k a ->
+            let (es, el) = List.nth effs k in
+            Buffer.add_string b (Printf.sprintf " a%d=%s s%d=%s e%d=%s/%s" k (ans_str a) k (ans_str (List.nth want k)) k (dec_of_z es) (dec_of_z el))) got;
+          print_endline (Buffer.contents b)
+        end else begin
+          let (sk, lim) = (match rest' with [a; b] -> (opt_z a, opt_z b) | _ -> failwith "bad paging") in
+          let p = { pg_skip = sk; pg_limit = lim } in
+          let ents = store_rows sv present rows in
+          let store_matches (r : row) = in_store sv present r && matches r in
+          let nan = List.exists (fun r -> not (row_no_nan r)) rows in
+          Printf.printf "query=%s spec=%s iter=%s iterspec=%s legacy=%s legiter=%s sorting=%s nan=%s\n"
+            (res_str (child_query_ids sv present matches fs p rows))
+            (res_str (query_spec fs p matches ents))
+            (ids_str (child_iterate_ids sv present matches p rows))
+            (ids_str (List.map (fun r -> r.r_id) (page p (List.filter matches ents))))
+            (res_str (query_ids_legacy store_matches fs p rows))
+            (ids_str (iterate_ids_legacy store_matches p rows))
+            (res_str (child_scan_sorting sv present matches fs p rows))
+            (bool_str nan)
+        end
     | [] -> ()
     | _ -> print_endline "?")
